@@ -14,6 +14,8 @@ import (
 	"time"
 
 	coraza "github.com/corazawaf/coraza/v3"
+	"github.com/corazawaf/coraza/v3/experimental/plugins"
+	"github.com/corazawaf/coraza/v3/experimental/plugins/plugintypes"
 	"github.com/corazawaf/coraza/v3/types"
 	"github.com/corazawaf/coraza/v3/verifharness/vf"
 )
@@ -89,7 +91,33 @@ var goodOpArg = map[string]string{"rx": "a+b", "pm": "abc def", "pmf": "words.tx
 	"streq": "x", "contains": "x", "beginsWith": "x", "endsWith": "x", "strmatch": "x", "geoLookup": "", "rbl": "example.com", "inspectFile": "/bin/true", "validateSchema": "schema.json",
 	"detectSQLi": "", "detectXSS": "", "noMatch": "", "unconditionalMatch": "", "validateUrlEncoding": "", "validateUtf8Encoding": ""}
 
-const c07Prelude = "SecRuleEngine On\nSecRequestBodyAccess On\nSecResponseBodyAccess On\nSecResponseBodyMimeType text/plain\nSecDataset ds `\nabc\ndef\n`\nSecDataset ipds `\n10.0.0.1\n`\n"
+const c07Prelude = "SecRuleEngine On\nSecRequestBodyAccess On\nSecResponseBodyAccess On\nSecResponseBodyMimeType text/plain\nSecAuditEngine On\nSecAuditLogParts ABCDEFGHIJKZ\nSecAuditLogType verifc07\nSecDataset ds `\nabc\ndef\n`\nSecDataset ipds `\n10.0.0.1\n`\n"
+
+// the audit log writer of this check: every record is formatted with the configured formatter and dropped
+type c07AuditWriter struct{ f plugintypes.AuditLogFormatter }
+
+func (w *c07AuditWriter) Init(c plugintypes.AuditLogConfig) error { w.f = c.Formatter; return nil }
+func (w *c07AuditWriter) Write(al plugintypes.AuditLog) error {
+	if w.f != nil {
+		_, err := w.f.Format(al)
+		return err
+	}
+	return nil
+}
+func (w *c07AuditWriter) Close() error { return nil }
+
+var c07Once sync.Once
+var c07Tmp string
+
+// what an embedder's error callback typically does with a matched rule
+func c07ErrorCallback(mr types.MatchedRule) {
+	_ = mr.ErrorLog()
+	_ = mr.AuditLog()
+	_ = mr.Message() + mr.Data() + mr.URI() + mr.TransactionID()
+	for _, md := range mr.MatchedDatas() {
+		_ = md.Key() + md.Value() + md.Message() + md.Data()
+	}
+}
 
 func c07Render(c c07Case, r *rand.Rand) string {
 	rule := func(vars, op, acts string) string {
@@ -100,7 +128,7 @@ func c07Render(c c07Case, r *rand.Rand) string {
 		v := c.X
 		switch c.Y {
 		case "plain":
-			return rule(v, "@rx .", "")
+			return rule(v, "@rx .", ",msg:'%{MATCHED_VAR_NAME}',logdata:'%{MATCHED_VAR}'")
 		case "count":
 			return rule("&"+v, "@ge 0", "")
 		case "key":
@@ -216,6 +244,12 @@ func c07Render(c c07Case, r *rand.Rand) string {
 		return pre + "SecAction \"id:1,phase:1,pass,ctl:" + c.X + "=" + val + "\"\nSecRule ARGS \"@rx .\" \"id:2,phase:2,pass\"\n"
 	case "dir":
 		val := map[string]string{"good": "On", "boundary": "0", "negative": "-5", "garbage": "\"x y\" \\", "empty": "", "quoted": "\"1\""}[c.Y]
+		if strings.HasPrefix(c.Y, "=") { // one word of the directive's documented list
+			val = c.Y[1:]
+			if val == "Concurrent" && r.Intn(2) == 0 && c07Tmp != "" {
+				return c.X + " " + val + "\nSecAuditLogStorageDir " + c07Tmp + "\n" + rule("ARGS", "@rx .", "")
+			}
+		}
 		return c.X + " " + val + "\n" + rule("ARGS", "@rx .", "")
 	}
 	return ""
@@ -258,6 +292,8 @@ var c07Traffic = []traffic{
 	{"gettrunc", "GET", "/p?foo=%4", "", "", map[string]string{"Cookie": "foo=%4; b=%", "X-T": "%4"}, "c"},
 	{"gettrunc2", "GET", "/p?foo%a", "", "", nil, "c"},
 	{"urlencodedtrunc", "POST", "/p?x=%", "application/x-www-form-urlencoded", "foo%a=v&bar=%4", nil, "c"},
+	{"longcont", "GET", "/p?foo=" + strings.Repeat("%80", 300) + "&" + strings.Repeat("%BF", 290) + "=1&bar=" + strings.Repeat("%C3%A9", 150), "", "", map[string]string{"Cookie": "foo=" + strings.Repeat("\xa9", 300), "X-T": strings.Repeat("\x80", 281)}, "c"},
+	{"longbody", "POST", "/p", "application/x-www-form-urlencoded", "foo=" + strings.Repeat("%80", 281) + "&bar=" + strings.Repeat("%E2%82%AC", 100) + "&baz=" + strings.Repeat("a", 279) + "%C3%A9", nil, "c"},
 	{"bodyfirst", "POST", "/p?foo=1", "application/x-www-form-urlencoded", "foo=bar", nil, "b"},
 	{"responsefirst", "GET", "/\xff%00?foo", "", "", map[string]string{"Foo": "\xff\x00", "Content-Length": "-1"}, "r"},
 }
@@ -339,10 +375,23 @@ func panicSite(p string) string {
 
 // C07: the library never panics, whatever configuration text or traffic it is given.
 func C07(run *vf.Run) {
-	run.Rule = "Grammar_MC.tla over a Vocab module generated at check time from the real registries in the source tree (every directive, action, operator, transformation, variable, ctl option): TLC enumerates every vocabulary item in every syntactic role (variables: plain / count / key / regex key / regex key left open / negation / negated key / macro / macro key / setvar key / ctl target / update target; operators: good / empty / macro / degenerate / negated argument; actions: bare / value / quoted / empty / macro / +N / -N / !key / duplicated / upper-case; transformations: single / after none / twice / multiMatch; ctl options and directives with good / boundary / negative / garbage / empty values); each case is spelled as SecLang, compiled (NewWAF under recover), and every accepted configuration is driven with 13 traffic shapes (GET with malformed escapes and cookies, escapes cut short at the very end of a name or value, urlencoded, JSON, malformed JSON, XML, malformed XML, multipart with upload, truncated multipart, body-before-headers and response-before-request call orders) under recover() and a watchdog; plus byte-level mutations (delete / duplicate / flip / insert delimiter) of every spelled case. Non-trivial = an accepted configuration that was driven with traffic"
+	run.Rule = "Grammar_MC.tla over a Vocab module generated at check time from the real registries in the source tree (every directive, action, operator, transformation, variable, ctl option): TLC enumerates every vocabulary item in every syntactic role (variables: plain / count / key / regex key / regex key left open / negation / negated key / macro / macro key / setvar key / ctl target / update target; operators: good / empty / macro / degenerate / negated argument; actions: bare / value / quoted / empty / macro / +N / -N / !key / duplicated / upper-case; transformations: single / after none / twice / multiMatch; ctl options and directives with good / boundary / negative / garbage / empty values, and every word of the documented list of the directives that take one); the audit log is on in every configuration (all parts, a writer that formats every record) and an error callback reads every field of every matched rule, so logging-time code runs on every case; each case is spelled as SecLang, compiled (NewWAF under recover), and every accepted configuration is driven with 15 traffic shapes (GET with malformed escapes and cookies, long runs of UTF-8 continuation bytes and of multi-byte characters that cross the length at which logged fields are cut, escapes cut short at the very end of a name or value, urlencoded, JSON, malformed JSON, XML, malformed XML, multipart with upload, truncated multipart, body-before-headers and response-before-request call orders) under recover() and a watchdog; plus byte-level mutations (delete / duplicate / flip / insert delimiter) of every spelled case. Non-trivial = an accepted configuration that was driven with traffic"
 	run.Exhaustive = true
 	run.Assume("byte-level mutation is done on the Go side (seeded); the specification contributes the corpus that spells every vocabulary item in every role and the expectation 'returns normally'")
+	c07Once.Do(func() {
+		plugins.RegisterAuditLogWriter("verifc07", func() plugintypes.AuditLogWriter { return &c07AuditWriter{} })
+	})
+	if d, err := os.MkdirTemp("", "verif-c07-"); err == nil {
+		c07Tmp = d
+		defer os.RemoveAll(d)
+	}
 	root := repoRoot()
+	if c07Tmp != "" {
+		// directives that name files (SecDebugLog, SecAuditLog ...) meet mutated values: whatever they create lands in the scratch directory
+		if wd, err := os.Getwd(); err == nil && os.Chdir(c07Tmp) == nil {
+			defer os.Chdir(wd)
+		}
+	}
 	vars := extract(root+"/internal/variables/variablesmap.gen.go", `return "([A-Z0-9_]+)"`)
 	ops := extractGlob(root+"/internal/operators/*.go", `Register\("([A-Za-z0-9_]+)"`)
 	acts := extract(root+"/internal/actions/actions.go", `Register\("([A-Za-z0-9_]+)"`)
@@ -423,7 +472,7 @@ func C07(run *vf.Run) {
 						}
 					}()
 					var err error
-					w, err = coraza.NewWAF(coraza.NewWAFConfig().WithDirectives(text).WithRootFS(rootFS))
+					w, err = coraza.NewWAF(coraza.NewWAFConfig().WithErrorCallback(c07ErrorCallback).WithDirectives(text).WithRootFS(rootFS))
 					if err != nil {
 						w = nil
 					}
